@@ -1,7 +1,7 @@
 /*@UNIT
 {
   "property": "C08",
-  "properties": ["C04", "C19"],
+  "properties": ["C04", "C19", "C07"],
   "unit": "parse_server_key_exchange",
   "function": "parseServerKeyExchange",
   "source": "matrixssl/hsDecode.c",
@@ -11,8 +11,9 @@
               "tlsVerify (model: demands that the signed range and the signature range are readable, records both and the key; verdict and consumed length from the input)",
               "psIsEcdheGroup, getEccParamById (models: verdict from the input; one 32-byte curve)", "psEccNewKey, psEccX963ImportKey, psDhImportPubKey (models: demand a readable key range; verdict from the input)"],
   "mode": "bounded",
-  "bounds": "TLS 1.2 client, ServerKeyExchange body of every length <= N = 24 with every content, every combination of the key-exchange flags (DHE, ECC, PSK, anonymous); loops (memcpy only) unwound with unwinding assertions; every allocation may fail",
-  "defs": ["BUFN=24"],
+  "bounds": "TLS 1.2 client, ServerKeyExchange body of every length <= N = 24 with every content, every combination of the key-exchange flags (DHE, ECC, PSK, anonymous); loops (memcpy only) unwound with unwinding assertions; every allocation may fail; case ecdhe_x25519: ECDHE (no PSK) ServerKeyExchange of every length <= 44 that starts named_curve, x25519 (the 36-byte key block does not fit the 24 bytes of the default case)",
+  "cases": [{"name": "default", "defs": ["BUFN=24"]},
+            {"name": "ecdhe_x25519", "defs": ["BUFN=44", "MODE_X25519=1"], "unwind": 48}],
   "unwind": 28,
   "object_bits": 10,
   "native_replay": false,
@@ -86,7 +87,33 @@ int32_t tlsVerify(ssl_t *ssl, const unsigned char *tbs, psSizeL_t tbsLen, const 
 #define OK (RET == PS_SUCCESS)
 #define DHE ((g_in.flags & SSL_FLAGS_DHE_KEY_EXCH) != 0)
 #define ANON ((g_in.flags & SSL_FLAGS_ANON_CIPHER) != 0)
+/* C07  "the key-exchange group in force was ... offered by the client in that handshake": the named curve of an
+ * accepted ECDHE ServerKeyExchange (ssl->sec.peerCurveId, which selects the client's own ephemeral key) is one of the
+ * curves this session enables - ssl->ecInfo.ecFlags, the set matrixSslEncodeClientHello writes into
+ * supported_groups (all compiled-in curves when the options name none; the re-handshake ClientHello offers a
+ * superset).  Curve numbers and flags: RFC 4492 5.1.1 / crypto/pubkey/pubkey.h.  x25519 (29) is never in a
+ * TLS <= 1.2 ClientHello of this library. */
+static uint32_t g_ecFlags0;
+static int vr_curve_offered(unsigned id, uint32_t flags)
+{
+    switch (id)
+    {
+    case 19: return (flags & IS_SECP192R1) != 0;
+    case 21: return (flags & IS_SECP224R1) != 0;
+    case 23: return (flags & IS_SECP256R1) != 0;
+    case 24: return (flags & IS_SECP384R1) != 0;
+    case 25: return (flags & IS_SECP521R1) != 0;
+    case 26: return (flags & IS_BRAIN256R1) != 0;
+    case 27: return (flags & IS_BRAIN384R1) != 0;
+    case 28: return (flags & IS_BRAIN512R1) != 0;
+    case 255: return (flags & IS_BRAIN224R1) != 0;
+    }
+    return 0;
+}
+#define ECC ((g_in.flags & SSL_FLAGS_ECC_CIPHER) != 0)
 #define POSTS(P) \
+    P(C07_accepted_named_curve_was_offered_by_this_client, IMPLIES(OK && DHE && ECC && g_ssl.sec.peerCurveId != namedgroup_x25519, vr_curve_offered(g_ssl.sec.peerCurveId, g_ecFlags0))) \
+    P(C07_x25519_is_accepted_only_if_offered, IMPLIES(OK && DHE && ECC, g_ssl.sec.peerCurveId != namedgroup_x25519)) \
     P(verdict_is_documented,                 OK || RET == MATRIXSSL_ERROR || RET == SSL_MEM_ERROR) \
     P(success_leaves_cursor_in_message,      IMPLIES(OK, __CPROVER_same_object(g_cur, g_store) && __CPROVER_POINTER_OFFSET(g_cur) >= START && __CPROVER_POINTER_OFFSET(g_cur) <= BUFN)) \
     P(success_has_no_pending_alert,          IMPLIES(OK, g_ssl.err == SSL_ALERT_NONE)) \
@@ -102,6 +129,7 @@ __CPROVER_assigns(g_cur, gh, __CPROVER_object_whole(&g_ssl))
 ;
 
 #include "matrixssl/hsDecode.c"
+#include "matrixssl/matrixsslKeys.c"     /* psTestUserEcID */
 
 struct inputs nondet_in(void);
 ssl_t nondet_ssl(void);
@@ -111,6 +139,10 @@ HARNESS_BEGIN
     int32 vr_ret;
     unsigned i;
     __CPROVER_assume(in.len <= BUFN);
+#ifdef MODE_X25519
+    __CPROVER_assume((in.flags & SSL_FLAGS_ECC_CIPHER) && (in.flags & SSL_FLAGS_DHE_KEY_EXCH) && !(in.flags & SSL_FLAGS_PSK_CIPHER));
+    in.buf[0] = 3; in.buf[1] = 0; in.buf[2] = 29;
+#endif
     g_in = in;
     g_ssl = nondet_ssl();
     g_ssl.flags = in.flags & ~SSL_FLAGS_SERVER;
@@ -123,6 +155,7 @@ HARNESS_BEGIN
     g_ssl.sec.hint = NULL; g_ssl.sec.dhP = NULL; g_ssl.sec.dhG = NULL; g_ssl.sec.dhKeyPub = NULL; g_ssl.sec.premaster = NULL; g_ssl.sec.eccKeyPub = NULL;
     g_ssl.sec.x25519KeyPub = NULL;
     g_curve.size = 32;
+    g_ecFlags0 = g_ssl.ecInfo.ecFlags;
     Memset(&gh, 0, sizeof(gh));
     for (i = 0; i < BUFN; i++) { g_store[i] = (i >= (unsigned) (BUFN - in.len)) ? in.buf[i - (BUFN - in.len)] : 0; }
     g_cur = g_store + (BUFN - in.len);
